@@ -1090,6 +1090,9 @@ func (x *explorer) cond(st *state, t *T) (Atom, bool, bool) {
 				a, b = b, a
 			}
 			if b.Op == "const" {
+				if a.Op == "idx" && strings.HasPrefix(b.Name, "-") {
+					return Atom{}, true, neg // a range index never equals a negative constant
+				}
 				if strings.HasPrefix(b.Name, "\"") {
 					return Atom{Kind: "streq", A: a, Const: b.Name, Neg: neg}, false, false
 				}
@@ -1126,6 +1129,15 @@ func (x *explorer) cond(st *state, t *T) (Atom, bool, bool) {
 				}
 			}
 			return Atom{Kind: "len", A: a.Args[0], Const: op + b.Name}, false, false
+		}
+		// a range index is never negative
+		if a.Op == "idx" && b.Op == "const" {
+			switch {
+			case op == ">=" && b.Name == "0", op == ">" && b.Name == "-1":
+				return Atom{}, true, true
+			case op == "<" && b.Name == "0", op == "<=" && b.Name == "-1":
+				return Atom{}, true, false
+			}
 		}
 		return Atom{Kind: "cmp", A: a, B: b, Const: op}, false, false
 	case "call", "res", "rec":
@@ -1624,8 +1636,21 @@ var pureExternals = map[string]bool{
 }
 
 func (x *explorer) shouldInline(fr *frame, callee *ssa.Function) bool {
-	if callee == nil || callee.Blocks == nil || !x.p.InRepo(callee) {
+	if callee == nil || callee.Blocks == nil {
 		return false
+	}
+	if !x.p.InRepo(callee) {
+		// the small generic helpers of package slices and maps are ordinary loops over their argument:
+		// interpreting their bodies keeps "for ... range" and "slices.ContainsFunc(...)" equivalent
+		if !stdHelperPkg(callee) || fr.depth+1 > x.opts.MaxDepth+2 {
+			return false
+		}
+		for f := fr; f != nil; f = f.parent {
+			if f.fn == callee {
+				return false
+			}
+		}
+		return true
 	}
 	name := x.p.FuncName(callee)
 	if x.opts.NoInline[name] {
@@ -1886,4 +1911,24 @@ func dumpPaths(p *Prog, name string) {
 		}
 		fmt.Printf("carried #%d init=%v src=%v\n", id, ci[id].Init, ss)
 	}
+}
+
+// stdHelperPkg: callee is (an instance of) a function of package slices or maps whose behaviour is a plain
+// loop over its arguments (search, test, copy); sorting and the iterator constructors stay opaque.
+func stdHelperPkg(fn *ssa.Function) bool {
+	o := fn.Origin()
+	if o == nil {
+		o = fn
+	}
+	if o.Pkg == nil {
+		return false
+	}
+	switch o.Pkg.Pkg.Path() {
+	case "slices":
+		switch o.Name() {
+		case "ContainsFunc", "IndexFunc", "Contains", "Index":
+			return true
+		}
+	}
+	return false
 }
